@@ -256,3 +256,55 @@ func init() {
 		return out
 	}
 }
+
+func init() {
+	propMeta["C11"] = PropMeta{
+		Bounds: map[string]interface{}{
+			"quick":    "all 11 non-Circle kinds built with the public constructors: Point, SimplePoint, LineString of 0..5 points, Polygon 3..5 + hole 0/3/4, Rect, MultiPoint 0..3, MultiLineString (lines of 0..3 points, empties mixed in), MultiPolygon, GeometryCollection and FeatureCollection of [point, line, polygon with hole, nested collection [rect, empty line]], single-child collection, Feature; ALL real coordinate values (comparisons are exact for every finite double; -0 == +0 numerically)",
+			"thorough": "lines to 8 points, polygons to 8+5",
+		},
+		Outside:     []string{"Circle (its rectangle is trigonometric: C13, not applicable)", "objects built by Parse (gjson)", "more children / deeper nesting than listed", "Center is compared with the same (min+max)/2 expression evaluated exactly: float rounding of the midpoint is not modelled"},
+		Stubs:       []string{},
+		Assumptions: commonAssumptions,
+	}
+	jobTables["C11"] = func(tier string) []Job {
+		var out []Job
+		add := func(k, a, b int) {
+			out = append(out, Job{Pkg: "geojson", Harness: "H_Rect", Params: []int{k, a, b}, Timeout: 60})
+		}
+		add(0, 0, 0)
+		add(1, 0, 0)
+		maxL := 5
+		if tier == "thorough" {
+			maxL = 8
+		}
+		for n := 0; n <= maxL; n++ {
+			add(2, n, 0)
+		}
+		for _, ab := range [][2]int{{3, 0}, {4, 0}, {4, 3}, {5, 4}, {2, 0}, {0, 0}} {
+			add(3, ab[0], ab[1])
+			add(11, ab[0], ab[1])
+		}
+		if tier == "thorough" {
+			add(3, 8, 5)
+		}
+		add(4, 0, 0)
+		for n := 0; n <= 3; n++ {
+			add(5, n, 0)
+		}
+		for _, ab := range [][2]int{{0, 0}, {1, 0}, {2, 1}, {3, 2}, {1, 3}} {
+			add(6, ab[0], ab[1])
+		}
+		add(7, 4, 3)
+		add(7, 3, 0)
+		add(7, 2, 0)
+		for _, ab := range [][2]int{{2, 3}, {1, 0}, {3, 0}, {0, 3}} {
+			add(8, ab[0], ab[1])
+			add(9, ab[0], ab[1])
+		}
+		for n := 0; n <= 3; n++ {
+			add(10, n, 0)
+		}
+		return out
+	}
+}
